@@ -102,8 +102,14 @@ func NewProcess(opts ...ProcOpts) *Process {
 	return proc
 }
 
+// errProcessStopped is returned by setStateAndRun when the process was stopped before
+// its command could be launched
+var errProcessStopped = errors.New("process was stopped")
+
 func (p *Process) run() int {
 	if p.isState(types.ProcessStateTerminating) {
+		// stopped while it was still pending
+		p.onProcessEnd(types.ProcessStateCompleted)
 		return 0
 	}
 
@@ -118,6 +124,10 @@ func (p *Process) run() int {
 loop:
 	for {
 		err := p.setStateAndRun(p.getStartingStateName(), p.getProcessStarter())
+		if errors.Is(err, errProcessStopped) {
+			log.Debug().Str("process", p.getName()).Msg("process stopped before its command was launched")
+			break loop
+		}
 		if err != nil {
 			log.Error().Err(err).Msgf(`Failed to run command ["%v"] for process %s`, strings.Join(p.getCommand(), `" "`), p.getName())
 			p.logBuffer.Write(err.Error())
@@ -719,6 +729,12 @@ func (p *Process) getStatusName() string {
 func (p *Process) setStateAndRun(state string, runnable func() error) error {
 	p.stateMtx.Lock()
 	defer p.stateMtx.Unlock()
+	// A stop request cancels procRunCtx before it looks at the state. Checking both here,
+	// in the critical section that launches the command, closes the window in which a
+	// process that was just stopped (while pending or waiting to restart) got launched.
+	if p.procState.Status == types.ProcessStateTerminating || p.procRunCtx.Err() != nil {
+		return errProcessStopped
+	}
 	p.procState.Status = state
 	p.onStateChange(state)
 	return runnable()
